@@ -3,6 +3,7 @@ package np
 import (
 	"encoding/json"
 	"fmt"
+	"golang.org/x/tools/go/ssa"
 	"os"
 	"path/filepath"
 	"sort"
@@ -53,6 +54,7 @@ type Ctx struct {
 	Extra       map[string]interface{}
 	vacuityDone bool
 	mutated     map[string]bool
+	reviewed    []*ssa.Function
 }
 
 type ruleInfo struct {
